@@ -4778,7 +4778,9 @@ def Attack_rate_discrete_from_graph(G, p, initial_infecteds=None,
         Nk = Counter(dict(G.degree()).values())
         maxk = max(Nk.keys())
         Nk = np.array([Nk[k] for k in range(maxk+1)])
+        Sk0 = np.zeros(maxk+1)
         SS=0
+        SR=0
         SX=0
         for node in G.nodes():
             if status[node] == 'S':
@@ -4796,7 +4798,7 @@ def Attack_rate_discrete_from_graph(G, p, initial_infecteds=None,
         phiR0 = 0
         
     
-    return Attack_rate_discrete(Pk, p, rho = rho, Sk0=Sk0, phiS0=PhiS0, 
+    return Attack_rate_discrete(Pk, p, rho = rho, Sk0=Sk0, phiS0=phiS0, 
                                 phiR0=phiR0, number_its = number_its)
 
 def Attack_rate_cts_time(Pk, tau, gamma, number_its =100, rho = None, 
@@ -4900,7 +4902,9 @@ def Attack_rate_cts_time_from_graph(G,  tau, gamma, initial_infecteds=None,
         Nk = Counter(dict(G.degree()).values())
         maxk = max(Nk.keys())
         Nk = np.array([Nk[k] for k in range(maxk+1)])
+        Sk0 = np.zeros(maxk+1)
         SS=0
+        SR=0
         SX=0
         for node in G.nodes():
             if status[node] == 'S':
